@@ -91,7 +91,7 @@ impl Prop for C19 {
         "fault_enumeration"
     }
     fn rule(&self) -> String {
-        "G1: documents serialised by the harness's own XML writer from an AST of a valid GraphML subset (attribute order and quoting, extra attributes, comments, PIs, whitespace, <edge/> vs <edge></edge>, custom or undeclared weight key, key with <default>, unknown elements, unrelated <data>), read under a generated GraphSpecs index: the result must equal the C01 model applied to the document's node and edge elements (or its error kind) with the declared directedness. G2: the same AST with one of 24 injected faults; missing id/source/target/edgedefault and an invalid edgedefault must give ReadError, the others only totality. G3: single-point corruptions (delete, duplicate, truncate, replace by one of 12 characters; valid UTF-8) of G1 documents and of write_graphml_string output, at every position x every kind for 3 fixed short documents (exhaustive fault block) and sampled otherwise. Every Ok graph from any generator must pass the C02 coherence check and the C03 index check. Non-trivial = the document reaches the element loop (contains '<graph' with attributes) and exercises >= 1 fault or corruption, or >= 1 weighted edge; distinct = distinct serialised case.".into()
+        "G1: documents serialised by the harness's own XML writer from an AST of a valid GraphML subset (attribute order and quoting, extra attributes, comments, PIs, whitespace, <edge/> vs <edge></edge>, custom or undeclared weight key, key with <default>, unknown elements, unrelated <data>), read under a generated GraphSpecs index: the result must equal the C01 model applied to the document's node and edge elements (or its error kind) with the declared directedness. G2: the same AST with one of 24 injected faults; a missing id/source/target/edgedefault or an invalid edgedefault must be refused (any error), the others only totality; a valid document may be refused (the property allows an error for any input) but if a graph is returned it must be the expected one. G3: single-point corruptions (delete, duplicate, truncate, replace by one of 12 characters; valid UTF-8) of G1 documents and of write_graphml_string output, at every position x every kind for 3 fixed short documents (exhaustive fault block) and sampled otherwise. Every Ok graph from any generator must pass the C02 coherence check and the C03 index check. Non-trivial = the document reaches the element loop (contains '<graph' with attributes) and exercises >= 1 fault or corruption, or >= 1 weighted edge; distinct = distinct serialised case.".into()
     }
     fn assumptions(&self) -> Vec<String> {
         vec![
@@ -176,11 +176,11 @@ impl Prop for C19 {
                     (_, None) => {}
                     (Some(f), Some(r)) => {
                         if fault_must_be_read_error(f) {
-                            match r {
-                                Err(e) => {
-                                    out.check(kind_of(&e) == "ReadError", &format!("read_graphml_string/{}/error_kind", tag), || kind_of(&e));
-                                }
-                                Ok(_) => out.fail(format!("read_graphml_string/{}/accepted", tag), format!("document: {}", text)),
+                            // a graph cannot contain "exactly the node and edge elements" of a document
+                            // whose node lacks an id / whose edge lacks an endpoint, nor have a directedness
+                            // that was not (validly) declared: such documents must be refused (any error kind)
+                            if r.is_ok() {
+                                out.fail(format!("read_graphml_string/{}/accepted", tag), format!("document: {}", text));
                             }
                         }
                     }
@@ -195,12 +195,12 @@ impl Prop for C19 {
                         let mr = m.add_edges(&edges);
                         match r {
                             Err(e) => {
+                                // the property allows an error for any input; it only constrains the
+                                // graph when one is returned. Rejections are counted, not failed
+                                // (acceptance of the library's own output is C14's subject).
                                 let k = kind_of(&e);
                                 if k != mr {
-                                    out.fail(
-                                        if k == "ReadError" { "read_graphml_string/valid_document/rejected".to_string() } else { format!("read_graphml_string/valid_document/outcome_model_{}_graph_{}", mr, k) },
-                                        format!("{} ({}) -- document: {}", k, e.message, text),
-                                    );
+                                    out.class(format!("valid_document_rejected_with_{}_model_{}", k, mr));
                                 }
                             }
                             Ok(g) => {
